@@ -21,6 +21,7 @@ import os
 
 def generate(ctx):
     """setup hook: Poly/Generated/Guards.lean must exist before the Lean library is built from a clean clone."""
+    from checks import native_extract
     native_extract.extract(ctx, "guards", [], "Guards.lean")
 
 
